@@ -137,6 +137,9 @@ class Walker:
         if "param" in o:
             return ("cparam", o["param"])
         if "value" in o:
+            if "uneval" in o:
+                # evaluated named constant: keep its identity as a 4th component
+                return ("const", o["value"], o["ty"], o["uneval"])
             return ("const", o["value"], o["ty"])
         if "uneval" in o:
             return ("uneval", o["uneval"], tuple(o.get("uneval_args", [])), o.get("promoted"))
@@ -484,3 +487,16 @@ def fmt(t, depth=0):
     if k == "after":
         return "after(%s)" % fmt(t[1])
     return str(t)
+
+
+def expand(t, path, depth=0):
+    """replace call-result terms by the call expression ('app', callee, args) so that terms from different paths compare
+    structurally (call ordinals differ between paths)"""
+    if not isinstance(t, tuple) or not t or depth > 40:
+        return t
+    if t[0] == "ret":
+        for e in path.events:
+            if e[0] == "call" and e[3] == t:
+                return ("app", e[1], tuple(expand(a, path, depth + 1) for a in e[2]))
+        return ("app", t[2], ())
+    return tuple(expand(x, path, depth + 1) if isinstance(x, tuple) else x for x in t)
